@@ -1123,7 +1123,7 @@ FUN_SITES = [
     # (id, file, function, bindings of the parameters, binders, Coq result type, statement tying f_<id> to the model,
     #  definitions of the model to unfold, properties)
     ("Deme_size_at", "demes/demes.py", "Deme.size_at", [("self", "rec:deme"), ("time", N)], "(self : deme) (time : num)", "num",
-     "forall self time, f_Deme_size_at self time = size_at self time", "size_at size_in_epoch epoch_owns", ["C13"]),
+     "forall self time, f_Deme_size_at self time = size_at self time", "size_at size_in_epoch epoch_owns clamp_size", ["C13"]),
     ("Deme_end_time", "demes/demes.py", "Deme.end_time", [("self", "rec:deme")], "(self : deme)", "num",
      "forall self, f_Deme_end_time self = d_end self", "d_end plast", ["C01", "C03", "C13"]),
     ("Epoch_time_span", "demes/demes.py", "Epoch.time_span", [("self", "rec:epoch")], "(self : epoch)", "num",
